@@ -475,5 +475,5 @@ class FKF:
             Sigma_v = J @ Sigma_am @ J.transpose()                  # Measurement quaternion's covariance (eq. 26)
             # Kalman Update
             q, self.Pk = self.kalman_update(q_, qy, self.Pk, Phi, Sigma_eps, Sigma_v)
-            Q[t] = q
+            Q[t] = q / np.linalg.norm(q)
         return Q
